@@ -3,6 +3,7 @@
 -/
 import MotoModel.Model.LineTools
 import MotoModel.Spec.LineTools
+import MotoModel.Proofs.LinesConcat
 namespace Moto.C16
 open Moto Moto.Spec
 
@@ -53,6 +54,19 @@ theorem run_eq_spec (cfg : NlCfg) (files : List Str) :
 theorem files_as_line_sequence (cfg : NlCfg) (f g : List Str) :
     nlRun cfg (f ++ g) = nlLines cfg cfg.start (f.flatMap readlines ++ g.flatMap readlines) := by
   simp [nlRun]
+
+/-- **C16 (several files behave as their concatenation)**: when every file ends with a line feed
+    (or is empty), numbering the files one after the other gives exactly the numbering of the single
+    text obtained by joining them. -/
+theorem files_as_concatenation (cfg : NlCfg) (files : List Str) (h : ∀ f ∈ files, f = [] ∨ f.getLast? = some 10) :
+    nlRun cfg files = nlRun cfg [files.flatten] := by
+  unfold nlRun
+  rw [List.flatMap_singleton, readlines_flatten files h]
+
+/-- … and the hypothesis cannot be dropped: a file without its final line feed still ends a line
+    (the tool prints one output line per line it read from each file), the joined text does not -/
+example : nlRun ⟨10, 10, 0⟩ [[97], [98, 10]] = [[49, 48, 32, 97], [50, 48, 32, 98]]
+    ∧ nlRun ⟨10, 10, 0⟩ [[97, 98, 10]] = [[49, 48, 32, 97, 98]] := by decide +kernel
 
 /-! ### idempotence -/
 
